@@ -415,6 +415,7 @@ def run(run):
                 run.violated("R4", key, "a Def is taken from the input iterator (the cast of the sub-register to its base register) but only its tid reaches the output: its expression -- the kind of cast (sign extension, popcount, ...) -- is replaced by whatever the new Def hard-codes", site)
             else:
                 run.undecided("R4", key, "a consumed input Def does not visibly reach output_defs", site)
-        run.floor("R4 folding branches that consume an input def", n, 2)
+        if n == 0:
+            run.undecided("R4", "replace_output_subregister|consumed-def-emitted", "no branch of replace_output_subregister both consumes the next input Def and pushes to output_defs (the folding may live in helper functions, which this rule does not follow)", site)
 
     run.guarded("R4", r4)
